@@ -5,13 +5,16 @@ package main
 // scripted mode every source of progress of an attack is one of these gates.
 
 import (
+	"context"
 	"errors"
 	"io"
+	"net"
 	"net/http"
 	"strconv"
 	"strings"
 	"sync"
 	"sync/atomic"
+	"syscall"
 	"time"
 
 	vegeta "github.com/tsenart/vegeta/v12/lib"
@@ -162,6 +165,17 @@ func (t *gateTransport) Release(newest bool, o rtOutcome) (seq uint64, ok bool) 
 }
 
 var errInjected = errors.New("verif: injected transport error")
+
+// transportErrs are what a real transport returns when an exchange fails; code that treats some
+// of them specially (retries, classification) must still deliver one result per hit.
+var transportErrs = []error{errInjected, io.EOF, syscall.ECONNRESET, io.ErrUnexpectedEOF, context.DeadlineExceeded, syscall.ECONNREFUSED, net.ErrClosed, syscall.EPIPE}
+
+var transportErrNext atomic.Uint64
+
+// nextTransportErr rotates through transportErrs.
+func nextTransportErr() error {
+	return transportErrs[int(transportErrNext.Add(1))%len(transportErrs)]
+}
 
 // ---- recording targeter ----------------------------------------------------
 
